@@ -132,6 +132,13 @@ def gen_case(rng: random.Random, mode: str, real_pool):
             j = rng.randrange(i); seeds.append(seeds[j]); groups.append(groups[j])
         else:
             seeds.append(rng.choice(pool)); groups.append(i)
+    if via is None and mode == "real" and rng.random() < 0.04:
+        # MersenneTwister() without a seed: the seed is what the object reports (run_impl writes it into case["seeds"]);
+        # the oracle compares with a twin MersenneTwister(reported seed) and with the stream's own reset
+        via = ["mt"] * ns
+        for i in range(ns):
+            if i == 0 or rng.random() < 0.5:
+                via[i] = "noseed"; seeds[i] = 0; groups[i] = i
     total = rng.randint(5, MAX_OPS)
     per = {}
     for g in sorted(set(groups)):
@@ -223,7 +230,9 @@ def make_stream(case, table, seed, via="mt"):
     """a stream with this seed: a new MersenneTwister (the reference of the oracle), or the object a
     StreamInformation / StreamSeedInformation hands out (the seed of the documented default is 10)"""
     from pydsol.core.streams import MersenneTwister, StreamInformation, StreamSeedInformation
-    if via == "mt":
+    if via == "noseed":
+        mt = MersenneTwister()
+    elif via == "mt":
         mt = MersenneTwister(seed)
     elif via in ("info", "seedinfo", "info_streams"):
         assert seed == 10
@@ -288,9 +297,17 @@ def apply_op(mt, saved: dict, op, all_saved=None):
 
 
 def run_impl(case, table=None):
-    table = table if table is not None else case_table(case)
     via = case.get("via") or ["mt"] * len(case["seeds"])
-    streams = [make_stream(case, table, s, v) for s, v in zip(case["seeds"], via)]
+    if "noseed" in via:                         # (real generator only: no table needed to build the objects)
+        streams = [make_stream(case, None, s, v) for s, v in zip(case["seeds"], via)]
+        case["seeds"] = list(case["seeds"])         # (not shared with a copy of the case made for shrinking)
+        for i, v in enumerate(via):
+            if v == "noseed":
+                r = streams[i].seed()
+                case["seeds"][i] = r if type(r) is int else 0
+    else:
+        table = table if table is not None else case_table(case)
+        streams = [make_stream(case, table, s, v) for s, v in zip(case["seeds"], via)]
     saved = [dict() for _ in streams]
     return [apply_op(streams[op[0]], saved[op[0]], op[1:], saved) for op in case["ops"]]
 
@@ -400,6 +417,10 @@ def oracle(case, outs):
         mine = [outs[t] for t, _ in proj[i]]
         if alone != mine:
             d = next(n for n in range(len(mine)) if alone[n] != mine[n])
+            if (case.get("via") or ["mt"] * ns)[i] == "noseed":
+                return ("stream-without-seed-differs-from-twin-with-the-reported-seed",
+                        f"stream {i} = MersenneTwister() reports seed {seeds[i]}; its request #{d} {proj[i][d][1]} is answered {mine[d]}, "
+                        f"a MersenneTwister({seeds[i]}) given the same requests answers {alone[d]}")
             return ("stream-depends-on-other-streams",
                     f"stream {i} (seed {seeds[i]}): request #{d} {proj[i][d][1]} answered {mine[d]} in the interleaved run "
                     f"but {alone[d]} when a fresh stream with the same seed gets the same requests alone")
@@ -715,7 +736,8 @@ def main(tier: str) -> int:
                        "2/3 on the real random.Random, 1/3 on a scripted generator with extreme outputs; "
                        "non-trivial = distinct case with >= 2 streams, >= 1 next_int and a reset/restore/set_seed followed by >= 2 draws on the same stream")
     run.cov["op_histogram"] = hist
-    run.cov["histories_over_streams_handed_out_by_StreamInformation"] = sum(1 for c, _ in evaluated if c.get("via"))
+    run.cov["histories_over_streams_handed_out_by_StreamInformation"] = sum(1 for c, _ in evaluated if c.get("via") and "noseed" not in c["via"])
+    run.cov["histories_with_streams_constructed_without_a_seed"] = sum(1 for c, _ in evaluated if "noseed" in (c.get("via") or []))
     run.cov["int_range_histogram"] = kinds_of_range
     run.cov["exception_histogram"] = exc_hist
     for case, outs in evaluated[n_corpus:n_corpus + 2]:
